@@ -1017,7 +1017,9 @@ Definition raw_set_attribute (h attr : N) (v : cdata) (version : N) : W unit :=
    do sp <- wl (find_attribute_spec T (n_type n) attr);
    match sp with
    | None => wfail InvalidAttribute
-   | Some (_, spec, _, _) =>
+   | Some (_, spec, _, mask) =>
+     (* fix beb7751: an attribute that is not valid in the file version is rejected *)
+     if N.land version mask =? 0 then wfail InvalidAttribute else
      do ok <- wl (check_value v spec version);
      if ok then
        set_node h (set_attrs n (if existsb (fun a => fst a =? attr) (n_attrs n)
